@@ -75,6 +75,12 @@ def gen_requests(ctx, res):
     for k, p in enumerate(lim):
         lines = [b'a', b'a' * 130 + b'\n', b'aab\n', b'ba' * 20]
         out.append(('limits', 0, 70 if p.count(b'(') > 20 else 4, [p], cases_for(k, lines)))
+    # valid UTF-8 patterns that fail at the start of a multi-byte character but would succeed inside it:
+    # the start-position loop and the atoms must move by whole characters
+    u8p = ['[^é]', '[^中]', '[^😀]', '[^é中]+', '[^é]$', '[^a-é]', '(.)[^é]', '[^é]*$', '.', '(.)(.)', '[é]', 'é*[^é]', '\\<[^é]', '[^é]\\>', '[^[:alpha:]é]']
+    u8l = ['é', 'éé\n', '中', 'a中é\n', '😀', 'x😀é中\n', 'éa', '中中', 'é\n']
+    for k, q in enumerate(u8p):
+        out.append(('utf8', k & 1, 3, [q.encode()], cases_for(k, [l.encode() for l in u8l])))
     res.extra['pattern_alphabet'] = b' '.join(ALPHA).decode()
     res.extra['exhaustive_length'] = L
     return out
